@@ -320,6 +320,27 @@ Theorem C09_fail_get_refines : forall s k, fwf s -> f_get s k = lookup k (f_flat
 Proof. exact f_get_refines. Qed.
 Print Assumptions C09_fail_get_refines.
 
+(* the flush mode as a parameter: Persist (the lock is dropped around the write below, the batches ws are written
+   meanwhile) or PersistSync / Persist of a private layer (nothing interleaves), succeeding or failing: in all four cases
+   the one map afterwards is the one map before plus exactly the batches written meanwhile *)
+Theorem C09_persist_attempt_flat : forall sync fails ws c, cwf c -> Forall (fun b => sorted false b /\ keys_ok b) ws ->
+  cflat (persist_attempt sync fails ws c) = cflat (if sync then c else crun c (map AWrite ws)) /\
+  cwf (persist_attempt sync fails ws c).
+Proof. exact persist_attempt_flat. Qed.
+Print Assumptions C09_persist_attempt_flat.
+
+(* the special case: a failed PersistSync leaves the one map unchanged *)
+Theorem C09_persist_sync_fail_flat : forall c, cwf c -> cflat (persist_attempt true true [] c) = cflat c.
+Proof. exact persist_sync_fail_flat. Qed.
+Print Assumptions C09_persist_sync_fail_flat.
+
+(* "a sync flush holds the lock, nothing to merge back" (s.ps restored, the tempstore's maps dropped) loses the whole
+   un-flushed change set: new key missing, overwritten value stale, deleted key back *)
+Definition C09_sync_no_recovery_statement : Prop := sync_no_recovery_statement.
+Theorem C09_sync_no_recovery_refuted : ~ C09_sync_no_recovery_statement.
+Proof. exact sync_no_recovery_refuted. Qed.
+Print Assumptions C09_sync_no_recovery_refuted.
+
 (* the merge in the other direction (the stale batch over the newer writes) does not have the property *)
 Definition C09_persist_fail_wrong_statement : Prop := persist_fail_wrong_statement.
 Theorem C09_persist_fail_wrong_direction_refuted : ~ C09_persist_fail_wrong_statement.
